@@ -3,6 +3,7 @@
 -/
 import Robotools.Model.Records
 import Robotools.Model.EvoCmd
+import Robotools.Proofs.TipLemmas
 namespace Robotools.C10
 open Robotools
 
@@ -12,31 +13,153 @@ def symValue : TipSym → Option Nat
   | .member v => if v ∈ [1, 2, 4, 8, 16, 32, 64, 128] then some v.toNat else none
   | .bad => none
 
+/-- The per-element conversion used by `tipMask (.many _)`. -/
+private def tipElem (e : TipSym) : Except Err Nat :=
+  match e with
+  | .int n => intToTip n
+  | .member v => if v = -1 then .error .valueErr else pure v.toNat
+  | .bad => .error .valueErr
+
+private theorem tipMask_many (l : List TipSym) :
+    tipMask (.many l) = (l.mapM tipElem >>= fun vs => pure (some (sumSet vs))) := rfl
+
+private theorem intToTip_ok (n : Int) (h : 1 ≤ n ∧ n ≤ 8) :
+    intToTip n = .ok (2 ^ (n.toNat - 1)) ∧ 2 ^ (n.toNat - 1) ∈ pows := by
+  have : n = 1 ∨ n = 2 ∨ n = 3 ∨ n = 4 ∨ n = 5 ∨ n = 6 ∨ n = 7 ∨ n = 8 := by omega
+  rcases this with rfl | rfl | rfl | rfl | rfl | rfl | rfl | rfl <;> exact ⟨rfl, by decide⟩
+
+private theorem intToTip_err (n : Int) (h : ¬ (1 ≤ n ∧ n ≤ 8)) : intToTip n = .error .valueErr := by
+  have h1 : (n == 1) = false := by simp; omega
+  have h2 : (n == 2) = false := by simp; omega
+  have h3 : (n == 3) = false := by simp; omega
+  have h4 : (n == 4) = false := by simp; omega
+  have h5 : (n == 5) = false := by simp; omega
+  have h6 : (n == 6) = false := by simp; omega
+  have h7 : (n == 7) = false := by simp; omega
+  have h8 : (n == 8) = false := by simp; omega
+  simp [intToTip, Spec.tipTable, List.lookup, h1, h2, h3, h4, h5, h6, h7, h8]
+
+private theorem tipElem_ok (e : TipSym) (v : Nat) (h : symValue e = some v) :
+    tipElem e = .ok v ∧ v ∈ pows := by
+  cases e with
+  | int n =>
+    simp only [symValue] at h
+    split at h
+    · rename_i hn
+      injection h with h
+      subst h
+      exact intToTip_ok n hn
+    · cases h
+  | member w =>
+    simp only [symValue] at h
+    split at h
+    · rename_i hw
+      injection h with h
+      subst h
+      simp only [List.mem_cons, List.not_mem_nil, or_false] at hw
+      rcases hw with rfl | rfl | rfl | rfl | rfl | rfl | rfl | rfl <;> exact ⟨rfl, by decide⟩
+    · cases h
+  | bad => cases h
+
+private theorem mapM_ok (l : List TipSym) (vs : List Nat) (h : l.mapM symValue = some vs) :
+    l.mapM tipElem = .ok vs ∧ ∀ x ∈ vs, x ∈ pows := by
+  induction l generalizing vs with
+  | nil =>
+    simp at h
+    subst h
+    exact ⟨rfl, by simp⟩
+  | cons e rest ih =>
+    rw [List.mapM_cons] at h
+    cases he : symValue e with
+    | none => simp [he] at h
+    | some v =>
+      cases hr : rest.mapM symValue with
+      | none => simp [he, hr] at h
+      | some ws =>
+        simp [he, hr] at h
+        subst h
+        obtain ⟨h1, h2⟩ := tipElem_ok e v he
+        obtain ⟨h3, h4⟩ := ih ws hr
+        refine ⟨?_, ?_⟩
+        · rw [List.mapM_cons, h1, h3]; rfl
+        · intro x hx
+          rcases List.mem_cons.1 hx with rfl | hx
+          · exact h2
+          · exact h4 x hx
+
+private theorem tipElem_err (e : TipSym)
+    (hwf : ∀ v, e = .member v → v ∈ [-1, 1, 2, 4, 8, 16, 32, 64, 128])
+    (h : symValue e = none) : tipElem e = .error .valueErr := by
+  cases e with
+  | int n =>
+    simp only [symValue] at h
+    split at h
+    · cases h
+    · rename_i hn
+      exact intToTip_err n hn
+  | member w =>
+    simp only [symValue] at h
+    split at h
+    · cases h
+    · rename_i hw
+      have := hwf w rfl
+      simp only [List.mem_cons, List.not_mem_nil, or_false] at this hw
+      rcases this with rfl | hx
+      · rfl
+      · exact absurd hx hw
+  | bad => rfl
+
+private theorem mapM_err (l : List TipSym)
+    (hwf : ∀ v, TipSym.member v ∈ l → v ∈ [-1, 1, 2, 4, 8, 16, 32, 64, 128])
+    (h : l.mapM symValue = none) : l.mapM tipElem = .error .valueErr := by
+  induction l with
+  | nil => simp at h
+  | cons e rest ih =>
+    rw [List.mapM_cons] at h
+    rw [List.mapM_cons]
+    cases he : symValue e with
+    | none =>
+      rw [tipElem_err e (fun v hv => hwf v (by simp [hv])) he]
+      rfl
+    | some v =>
+      rw [(tipElem_ok e v he).1]
+      cases hr : rest.mapM symValue with
+      | none =>
+        rw [ih (fun v hv => hwf v (by simp [hv])) hr]
+        rfl
+      | some ws => simp [he, hr] at h
+
 /-- A tip number n in 1..8 is emitted as the mask 2^(n-1). -/
 theorem mask_single (n : Nat) (h : 1 ≤ n ∧ n ≤ 8) :
     tipMask (.single (.int n)) = .ok (some (2 ^ (n - 1))) := by
-  sorry
+  have : n = 1 ∨ n = 2 ∨ n = 3 ∨ n = 4 ∨ n = 5 ∨ n = 6 ∨ n = 7 ∨ n = 8 := by omega
+  rcases this with rfl | rfl | rfl | rfl | rfl | rfl | rfl | rfl <;> rfl
 
 /-- The corresponding `Tip` member is emitted as its value 2^(n-1). -/
 theorem mask_member (n : Nat) (h : 1 ≤ n ∧ n ≤ 8) :
     tipMask (.single (.member ((2 ^ (n - 1) : Nat) : Int))) = .ok (some (2 ^ (n - 1))) := by
-  sorry
+  have : n = 1 ∨ n = 2 ∨ n = 3 ∨ n = 4 ∨ n = 5 ∨ n = 6 ∨ n = 7 ∨ n = 8 := by omega
+  rcases this with rfl | rfl | rfl | rfl | rfl | rfl | rfl | rfl <;> rfl
 
 /-- `Tip.Any` produces an empty mask field. -/
 theorem mask_any : tipMask (.single (.member (-1))) = .ok none := by
-  sorry
+  rfl
 
 /-- 0, 9 and all other numbers outside 1..8 are rejected, as are non-integers. -/
 theorem mask_rejects_int (n : Int) (h : n < 1 ∨ 8 < n) : tipMask (.single (.int n)) = .error .valueErr := by
-  sorry
+  have : intToTip n = .error .valueErr := intToTip_err n (by omega)
+  simp only [tipMask, this]
+  rfl
 
 theorem mask_rejects_bad : tipMask (.single .bad) = .error .valueErr := by
-  sorry
+  rfl
 
 /-- A collection of valid tips is emitted as the bitwise OR of its members. -/
 theorem mask_list (l : List TipSym) (vs : List Nat) (h : l.mapM symValue = some vs) :
     tipMask (.many l) = .ok (some (orMask vs)) := by
-  sorry
+  obtain ⟨h1, h2⟩ := mapM_ok l vs h
+  rw [tipMask_many, h1, ← sumSet_eq_orMask vs h2]
+  rfl
 
 /-- The mask of a collection depends only on the set of tips it contains: order, repetition and
     mixing of numbers and `Tip` members are irrelevant. -/
@@ -44,34 +167,58 @@ theorem mask_set_ext (l₁ l₂ : List TipSym) (v₁ v₂ : List Nat)
     (h₁ : l₁.mapM symValue = some v₁) (h₂ : l₂.mapM symValue = some v₂)
     (hset : ∀ x, x ∈ v₁ ↔ x ∈ v₂) :
     tipMask (.many l₁) = tipMask (.many l₂) := by
-  sorry
+  rw [mask_list l₁ v₁ h₁, mask_list l₂ v₂ h₂, orMask_congr v₁ v₂ hset]
 
-/-- A collection containing an invalid member (0, 9, a non-integer, `Tip.Any`) is rejected. -/
-theorem mask_list_rejects (l : List TipSym) (h : l.mapM symValue = none) :
+/-- A collection containing an invalid member (0, 9, a non-integer, `Tip.Any`) is rejected.
+
+    STATEMENT CHANGE: the hypothesis `hwf` was added.  Without it the statement is false:
+    `l = [.member 3]` has `symValue (.member 3) = none`, but
+    `tipMask (.many [.member 3]) = .ok (some 3)` (the model, like the implementation, accepts any
+    `Tip` member other than `Tip.Any`; 3 is simply not the value of a `Tip` member, cf. the
+    docstring of `TipSym.member`).  `hwf` says that every `.member v` in `l` really is one of the
+    nine `Tip` members (`Spec.tipEnum` values). -/
+theorem mask_list_rejects (l : List TipSym)
+    (hwf : ∀ v, TipSym.member v ∈ l → v ∈ [-1, 1, 2, 4, 8, 16, 32, 64, 128])
+    (h : l.mapM symValue = none) :
     tipMask (.many l) = .error .valueErr := by
-  sorry
+  rw [tipMask_many, mapM_err l hwf h]
+  rfl
+
+/-- The original `mask_list_rejects` (without `hwf`) is false. -/
+example : ¬ (∀ l : List TipSym, l.mapM symValue = none → tipMask (.many l) = .error .valueErr) := by
+  intro h
+  have h3 : tipMask (.many [.member 3]) = .ok (some 3) := rfl
+  have := h [.member 3] rfl
+  rw [h3] at this
+  cases this
 
 /-- EVO script commands: for distinct tips the mask (sum of the values) is their OR. -/
 theorem evo_mask_or (tv : List Nat) (hvals : ∀ x ∈ tv, x ∈ [1, 2, 4, 8, 16, 32, 64, 128]) (hnd : tv.Nodup) :
-    tv.foldl (· + ·) 0 = orMask tv := by
-  sorry
+    tv.foldl (· + ·) 0 = orMask tv :=
+  sum_eq_orMask tv hvals hnd
 
 /-- EVO script commands: slot `i` (for tip i+1) carries a volume iff tip i+1 is selected, and the
     selected slots receive the given volumes in ascending tip order. -/
 theorem slot_i_is_tip_i (tv : List Nat) (vols : List Int) (i : Nat) (hi : i < 8) :
     ((fillSlots tv vols)[i]?.join).isSome → (2 ^ i) ∈ tv := by
-  sorry
+  intro h
+  obtain ⟨t, ht, hmem⟩ := fillSlots_go_some tv Spec.tipSlots vols i h
+  have : i = 0 ∨ i = 1 ∨ i = 2 ∨ i = 3 ∨ i = 4 ∨ i = 5 ∨ i = 6 ∨ i = 7 := by omega
+  rcases this with rfl | rfl | rfl | rfl | rfl | rfl | rfl | rfl <;>
+    (simp [Spec.tipSlots] at ht; subst ht; exact hmem)
 
-theorem fillSlots_length (tv : List Nat) (vols : List Int) : (fillSlots tv vols).length = 8 := by
-  sorry
+theorem fillSlots_length (tv : List Nat) (vols : List Int) : (fillSlots tv vols).length = 8 :=
+  fillSlots_go_length tv Spec.tipSlots vols
 
 /-- The selected slots, read in ascending tip order, carry exactly the given volumes in order. -/
 theorem fillSlots_volumes (tv : List Nat) (vols : List Int)
     (hvals : ∀ x ∈ tv, x ∈ [1, 2, 4, 8, 16, 32, 64, 128]) (hnd : tv.Nodup) (hlen : vols.length = tv.length) :
     (fillSlots tv vols).filterMap id = vols := by
-  sorry
+  unfold fillSlots
+  rw [fillSlots_go_filterMap,
+    filter_contains_length tv Spec.tipSlots (by decide) hnd hvals, ← hlen, List.take_length]
 
-example : tipMask (.many [.int 1, .member 4, .int 3, .int 1]) = .ok (some 5) := by decide
-example : tipMask (.many [.int 1, .member (-1)]) = .error .valueErr := by decide
+example : tipMask (.many [.int 1, .member 4, .int 3, .int 1]) = .ok (some 5) := by rfl
+example : tipMask (.many [.int 1, .member (-1)]) = .error .valueErr := by rfl
 
 end Robotools.C10
